@@ -3,6 +3,10 @@ Gallina text.  Anything outside the subset raises `Unsupported`, which the
 check treats as a broken tie (never silently skipped).
 
 Types:  'Z' | 'bool' | ('pair', t1, t2) | ('list', t) | ('opt', t) | ('set', t)
+        | ('var', 'A')  (a type variable bound by the enclosing Section)
+        | ('dict', tk, tv)  (insertion-ordered association list, Prelude.lookup/dset)
+        | ('tuple', [t1, ..., tn])  n >= 3  (Coq product t1 * ... * tn)
+        | 'none'  (the constant None before it is coerced into an option)
 Python ints are unbounded => Z; `%` / `//` are floor => Z.modulo / Z.div
 (identical conventions).  A Python int used as a condition means `!= 0`.
 """
@@ -24,6 +28,12 @@ def ty_str(t):
         return '(list %s)' % ty_str(t[1])
     if t[0] == 'opt':
         return '(option %s)' % ty_str(t[1])
+    if t[0] == 'var':
+        return t[1]
+    if t[0] == 'dict':
+        return '(list (%s * %s))' % (ty_str(t[1]), ty_str(t[2]))
+    if t[0] == 'tuple':
+        return '(' + ' * '.join(ty_str(x) for x in t[1]) + ')'
     raise Unsupported('type %r' % (t,))
 
 
@@ -39,6 +49,26 @@ def eqb_for(t):
     raise Unsupported('eqb for %r' % (t,))
 
 
+def default_for(t, defaults=None):
+    """the value a total Gallina function returns where Python would raise
+    (IndexError / KeyError); never reached on the inputs the theorems cover"""
+    if t == 'Z':
+        return '0%Z'
+    if t == 'bool':
+        return 'false'
+    if t[0] == 'pair':
+        return '(%s, %s)' % (default_for(t[1], defaults), default_for(t[2], defaults))
+    if t[0] in ('list', 'set', 'dict'):
+        return '[]'
+    if t[0] == 'opt':
+        return 'None'
+    if t[0] == 'var' and defaults and t[1] in defaults:
+        return defaults[t[1]]
+    if t[0] == 'tuple':
+        return '(' + ', '.join(default_for(x, defaults) for x in t[1]) + ')'
+    raise Unsupported('default for %r' % (t,))
+
+
 class Fn:
     def __init__(self, name, params, ret, coqname=None):
         self.name = name
@@ -48,11 +78,19 @@ class Fn:
 
 
 class Translator:
-    def __init__(self, funcs=None, notes=None):
+    def __init__(self, funcs=None, notes=None, local_types=None, defaults=None, pyindex=False):
         # funcs: python name -> Fn (already translated helper functions)
         self.funcs = dict(funcs or {})
         self.notes = notes if notes is not None else []
         self.counter = 0
+        # local_types: python local name -> type, consulted only where a local is
+        #   initialised by an empty literal (`x = []`, `d = {}`) whose type cannot be read off
+        # defaults: type variable -> Gallina term of that type (default element)
+        # pyindex: list indexing `l[i]` as Python does (negative i from the end, PyList.py_nth)
+        #   instead of Prelude.nthZ (kept as the default for the older generators)
+        self.local_types = dict(local_types or {})
+        self.defaults = dict(defaults or {})
+        self.pyindex = pyindex
 
     # ------------------------------------------------------------ helpers
     def fresh(self, base):
@@ -67,6 +105,17 @@ class Translator:
         if t[0] in ('list', 'set'):
             return '(negb (is_nil %s))' % txt
         raise Unsupported('truthiness of %r' % (t,))
+
+    def coerce(self, txt, t_from, t_to):
+        """value of type t_from used where t_to is expected (None / x into an option)"""
+        if t_from == t_to:
+            return txt
+        if t_to[0] == 'opt':
+            if t_from == 'none':
+                return 'None'
+            if t_from == t_to[1]:
+                return '(Some %s)' % txt
+        raise Unsupported('value of type %r where %r is expected' % (t_from, t_to))
 
     # -------------------------------------------------------- expressions
     def expr(self, n, env):
@@ -83,6 +132,8 @@ class Translator:
             return 'false', 'bool'
         if isinstance(v, int):
             return '(%d)%%Z' % v, 'Z'
+        if v is None:
+            return 'None', 'none'
         raise Unsupported('constant %r' % (v,))
 
     def e_Name(self, n, env):
@@ -164,15 +215,76 @@ class Translator:
         return '(if %s then %s else %s)' % (c, a, b), ta
 
     def e_Tuple(self, n, env):
+        if any(isinstance(e, ast.Starred) for e in n.elts):
+            return self.seq_display(n.elts, env)
         es = [self.expr(e, env) for e in n.elts]
         if len(es) == 2:
             return '(%s, %s)' % (es[0][0], es[1][0]), ('pair', es[0][1], es[1][1])
+        if len(es) >= 3:
+            return '(' + ', '.join(x for x, _ in es) + ')', ('tuple', [t for _, t in es])
         raise Unsupported('tuple of arity %d' % len(es))
+
+    def e_List(self, n, env):
+        if not n.elts:
+            raise Unsupported('empty list literal outside `name = []` with a declared local type')
+        return self.seq_display(n.elts, env)
+
+    def seq_display(self, elts, env):
+        """`[a, *xs, b]` / `(*xs, a, *ys)`: homogeneous sequence => list, `++` of the parts"""
+        parts, et = [], None
+        for e in elts:
+            if isinstance(e, ast.Starred):
+                x, t = self.expr(e.value, env)
+                if t[0] != 'list':
+                    raise Unsupported('starred non-list %r' % (t,))
+                parts.append(('l', x))
+                te = t[1]
+            else:
+                x, te = self.expr(e, env)
+                parts.append(('e', x))
+            if et is None:
+                et = te
+            elif et != te:
+                raise Unsupported('sequence display of mixed element types %r, %r' % (et, te))
+        out, run = [], []
+        for k, x in parts:
+            if k == 'e':
+                run.append(x)
+            else:
+                if run:
+                    out.append('[' + '; '.join(run) + ']')
+                    run = []
+                out.append(x)
+        if run:
+            out.append('[' + '; '.join(run) + ']')
+        if len(out) == 1:
+            return out[0], ('list', et)
+        return '(' + ' ++ '.join(out) + ')', ('list', et)
 
     def e_Subscript(self, n, env):
         x, t = self.expr(n.value, env)
         if t[0] == 'pair' and isinstance(n.slice, ast.Constant) and n.slice.value in (0, 1):
             return ('(fst %s)' if n.slice.value == 0 else '(snd %s)') % x, t[1 + n.slice.value]
+        if t[0] == 'list' and isinstance(n.slice, ast.Slice):
+            sl = n.slice
+            if sl.step is not None:
+                raise Unsupported('slice with a step')
+            bounds = []
+            for b in (sl.lower, sl.upper):
+                if b is None:
+                    bounds.append('None')
+                else:
+                    bx, bt = self.expr(b, env)
+                    if bt != 'Z':
+                        raise Unsupported('slice bound type')
+                    bounds.append('(Some %s)' % bx)
+            return '(py_slice %s %s %s)' % (x, bounds[0], bounds[1]), t
+        if t[0] == 'list' and self.pyindex:
+            i, ti = self.expr(n.slice, env)
+            if ti != 'Z':
+                raise Unsupported('list index type')
+            self.notes.append('l[i]: IndexError is not modelled (py_nth returns the default element)')
+            return '(py_nth %s %s %s)' % (default_for(t[1], self.defaults), x, i), t[1]
         if t[0] == 'list':
             i, ti = self.expr(n.slice, env)
             if ti != 'Z':
@@ -180,7 +292,59 @@ class Translator:
             if t[1] != 'Z':
                 raise Unsupported('list index of non-int list')
             return '(nthZ %s %s)' % (x, i), 'Z'
+        if t[0] == 'dict':
+            k, tk = self.expr(n.slice, env)
+            if tk != t[1]:
+                raise Unsupported('dict key type %r vs %r' % (tk, t[1]))
+            self.notes.append('d[k]: KeyError is not modelled (dget returns the default value)')
+            return '(dget %s %s %s %s)' % (eqb_for(t[1]), default_for(t[2], self.defaults), x, k), t[2]
         raise Unsupported('subscript')
+
+    def comp_seq(self, gen, env):
+        """general list-producing comprehension: several `for`s, each with `if`s.
+        `[e for p1 in it1 if c1 for p2 in it2 if c2]` =>
+        flat_map (fun p1 => map (fun p2 => e) (filter (fun p2 => c2) it2)) (filter (fun p1 => c1) it1)"""
+        def go(gens, env):
+            g = gens[0]
+            if g.is_async:
+                raise Unsupported('async comprehension')
+            it, tit = self.expr(g.iter, env)
+            if tit[0] not in ('list', 'set'):
+                raise Unsupported('comprehension over %r' % (tit,))
+            pat, env2 = self.pattern(g.target, tit[1], env)
+            for c in g.ifs:
+                cx = self.as_bool(*self.expr(c, env2))
+                it = '(filter (fun %s => %s) %s)' % (pat, cx, it)
+            if len(gens) == 1:
+                body, tb = self.expr(gen.elt, env2)
+                return '(map (fun %s => %s) %s)' % (pat, body, it), tb
+            inner, tb = go(gens[1:], env2)
+            return '(flat_map (fun %s => %s) %s)' % (pat, inner, it), tb
+        txt, tb = go(gen.generators, env)
+        return txt, ('list', tb)
+
+    def e_GeneratorExp(self, n, env):
+        return self.comp_seq(n, env)
+
+    def e_ListComp(self, n, env):
+        return self.comp_seq(n, env)
+
+    def e_DictComp(self, n, env):
+        """{k: v for p in it if c} => successive d[k] = v on the empty dict"""
+        if len(n.generators) != 1:
+            raise Unsupported('dict comprehension with several generators')
+        g = n.generators[0]
+        it, tit = self.expr(g.iter, env)
+        if tit[0] not in ('list', 'set'):
+            raise Unsupported('comprehension over %r' % (tit,))
+        pat, env2 = self.pattern(g.target, tit[1], env)
+        for c in g.ifs:
+            cx = self.as_bool(*self.expr(c, env2))
+            it = '(filter (fun %s => %s) %s)' % (pat, cx, it)
+        k, tk = self.expr(n.key, env2)
+        v, tv = self.expr(n.value, env2)
+        acc = self.fresh('acc')
+        return '(fold_left (fun %s %s => dset %s %s %s %s) %s [])' % (acc, pat, eqb_for(tk), k, v, acc, it), ('dict', tk, tv)
 
     def comp(self, gen, env):
         """one generator `for tgt in it` (no ifs) -> (binder text, new env, iter text)"""
@@ -226,6 +390,9 @@ class Translator:
             if name == 'all' and len(n.args) == 1 and isinstance(n.args[0], ast.GeneratorExp):
                 pat, body, tb, it = self.comp(n.args[0], env)
                 return '(forallb (fun %s => %s) %s)' % (pat, self.as_bool(body, tb), it), 'bool'
+            if name in ('tuple', 'list') and len(n.args) == 1 and isinstance(n.args[0], ast.GeneratorExp) \
+                    and (len(n.args[0].generators) != 1 or n.args[0].generators[0].ifs):
+                return self.comp_seq(n.args[0], env)
             if name == 'tuple' and len(n.args) == 1 and isinstance(n.args[0], ast.GeneratorExp):
                 g = n.args[0]
                 # generator over a fixed-arity tuple (pair) => component-wise
@@ -246,7 +413,7 @@ class Translator:
                 return 'true', 'bool'
             if name == 'len' and len(n.args) == 1:
                 x, t = self.expr(n.args[0], env)
-                if t[0] not in ('list', 'set'):
+                if t[0] not in ('list', 'set', 'dict'):
                     raise Unsupported('len of %r' % (t,))
                 return '(Z.of_nat (length %s))' % x, 'Z'
             if name == 'range' and len(n.args) == 1:
@@ -254,6 +421,35 @@ class Translator:
                 if t != 'Z':
                     raise Unsupported('range arg')
                 return '(zrange %s)' % x, ('list', 'Z')
+            if name == 'range' and len(n.args) == 2:
+                a, ta = self.expr(n.args[0], env)
+                b, tb = self.expr(n.args[1], env)
+                if ta != 'Z' or tb != 'Z':
+                    raise Unsupported('range args')
+                return '(zrange2 %s %s)' % (a, b), ('list', 'Z')
+            if name == 'enumerate' and len(n.args) == 1:
+                x, t = self.expr(n.args[0], env)
+                if t[0] != 'list':
+                    raise Unsupported('enumerate of %r' % (t,))
+                return '(py_enumerate %s)' % x, ('list', ('pair', 'Z', t[1]))
+            if name in ('min', 'max') and len(n.args) == 1:
+                x, t = self.expr(n.args[0], env)
+                if t != ('list', 'Z'):
+                    raise Unsupported('%s of %r' % (name, t))
+                self.notes.append('%s(): ValueError on an empty sequence is not modelled (py_%s [] = 0)' % (name, name))
+                return '(py_%s %s)' % (name, x), 'Z'
+            if name == 'slice' and len(n.args) == 2:
+                a, ta = self.expr(n.args[0], env)
+                b, tb = self.expr(n.args[1], env)
+                if ta != 'Z' or tb != 'Z':
+                    raise Unsupported('slice args')
+                self.notes.append('slice(a, b) is represented by the pair (a, b)')
+                return '(%s, %s)' % (a, b), ('pair', 'Z', 'Z')
+            if name in ('tuple', 'list') and len(n.args) == 1 and not isinstance(n.args[0], ast.GeneratorExp):
+                x, t = self.expr(n.args[0], env)
+                if t[0] != 'list':
+                    raise Unsupported('%s() of %r' % (name, t))
+                return x, t
             if name == 'set' and not n.args:
                 return '[]', ('set', 'Z')
             if name in self.funcs:
@@ -282,6 +478,9 @@ class Translator:
         for s in stmts:
             if isinstance(s, ast.Assign):
                 for t in s.targets:
+                    if isinstance(t, ast.Subscript) and isinstance(t.value, ast.Name):
+                        add(t.value.id)   # d[k] = v mutates d only
+                        continue
                     for nm in ast.walk(t):
                         if isinstance(nm, ast.Name):
                             add(nm.id)
@@ -362,6 +561,32 @@ class Translator:
                     lets += 'let %s := %s in ' % (v, x)
                     env2[nm.id] = (v, t)
                 return '(' + lets + self.block(rest, env2, ret_t, tail) + ')'
+            if isinstance(tgt, ast.Name) and tgt.id in self.local_types and (
+                    (isinstance(s.value, (ast.List, ast.Tuple)) and not s.value.elts)
+                    or (isinstance(s.value, ast.Dict) and not s.value.keys)):
+                lt = self.local_types[tgt.id]
+                want = 'dict' if isinstance(s.value, ast.Dict) else 'list'
+                if lt[0] != want:
+                    raise Unsupported('declared type %r of %s does not fit its empty %s literal' % (lt, tgt.id, want))
+                v = self.fresh(tgt.id)
+                env2 = dict(env)
+                env2[tgt.id] = (v, lt)
+                return '(let %s := (@nil %s) in %s)' % (
+                    v, ty_str(lt)[len('(list '):-1], self.block(rest, env2, ret_t, tail))
+            if isinstance(tgt, ast.Subscript) and isinstance(tgt.value, ast.Name) and tgt.value.id in env \
+                    and env[tgt.value.id][1][0] == 'dict' and not isinstance(tgt.slice, ast.Slice):
+                nm = tgt.value.id
+                dx, dt = env[nm]
+                k, tk = self.expr(tgt.slice, env)
+                if tk != dt[1]:
+                    raise Unsupported('dict key type %r vs %r' % (tk, dt[1]))
+                x, t = self.expr(s.value, env)
+                x = self.coerce(x, t, dt[2])
+                v = self.fresh(nm)
+                env2 = dict(env)
+                env2[nm] = (v, dt)
+                return '(let %s := (dset %s %s %s %s) in %s)' % (
+                    v, eqb_for(dt[1]), k, x, dx, self.block(rest, env2, ret_t, tail))
             x, t = self.expr(s.value, env)
             if isinstance(tgt, ast.Name):
                 v = self.fresh(tgt.id)
@@ -391,6 +616,30 @@ class Translator:
                 env2 = dict(env)
                 env2[nm] = (v, st)
                 return '(let %s := (%s :: %s) in %s)' % (v, x, sx, self.block(rest, env2, ret_t, tail))
+            if c.func.attr == 'append' and isinstance(c.func.value, ast.Name) and len(c.args) == 1 \
+                    and not c.keywords and c.func.value.id in env and env[c.func.value.id][1][0] == 'list':
+                nm = c.func.value.id
+                sx, st = env[nm]
+                x, t = self.expr(c.args[0], env)
+                x = self.coerce(x, t, st[1])
+                v = self.fresh(nm)
+                env2 = dict(env)
+                env2[nm] = (v, st)
+                return '(let %s := (%s ++ [%s]) in %s)' % (v, sx, x, self.block(rest, env2, ret_t, tail))
+            if c.func.attr == 'setdefault' and isinstance(c.func.value, ast.Name) and len(c.args) == 2 \
+                    and not c.keywords and c.func.value.id in env and env[c.func.value.id][1][0] == 'dict':
+                nm = c.func.value.id
+                dx, dt = env[nm]
+                k, tk = self.expr(c.args[0], env)
+                if tk != dt[1]:
+                    raise Unsupported('dict key type %r vs %r' % (tk, dt[1]))
+                x, t = self.expr(c.args[1], env)
+                x = self.coerce(x, t, dt[2])
+                v = self.fresh(nm)
+                env2 = dict(env)
+                env2[nm] = (v, dt)
+                return '(let %s := (dsetdefault %s %s %s %s) in %s)' % (
+                    v, eqb_for(dt[1]), k, x, dx, self.block(rest, env2, ret_t, tail))
             raise Unsupported('method call statement')
         if isinstance(s, ast.If):
             # `x is None` on an option-typed name => match, rebinding the name
